@@ -41,6 +41,19 @@ CLAIMS = {
              'its session ids and the state after the last client must equal the fresh state. The memory clause is '
              'claimed as state equality, not as a heap measurement.',
         ref='5 C11', technique='symbolic execution (CrossHair+z3) over bounded histories with a symbolic fault index'),
+    'C16': dict(
+        text='Bounded symbolic execution of the real get_session/save_session/session() of Server and AsyncServer over '
+             'all histories of 3 (thorough 4) operations on 3 client slots with symbolic session contents, every live '
+             'session read back after every step against a reference map. One genuine defect is listed as a known '
+             'finding (stale session after a namespace-level reconnect on a live transport).',
+        ref='5 C16', technique='symbolic execution (CrossHair+z3) over bounded histories vs reference session map'),
+    'C20': dict(
+        text='Systematic enumeration, driven by the solver, of all schedules of two (thorough: three) real threads '
+             'terminating one session id on the real threaded Server, pre-empting before every manager call and in the '
+             'handler (thorough: also before every engine.io call). The schedule vector is the only symbolic input, so '
+             'solver leverage is low; it is the same engine and verdict discipline. The check-then-mark race is a '
+             'known finding identified by its schedule family.',
+        ref='5 C20', technique='solver-driven schedule enumeration (CrossHair+z3 over a baton thread scheduler) on the real Server'),
 }
 
 PENDING = 'check not built yet in this tree (work in progress); no claim is made'
